@@ -73,3 +73,34 @@ Theorem C03_code_wrapper_write_tie_pending : forall fuel s d,
 Proof. exact EquivTls.wrapper_write_tie_pending. Qed.
 Print Assumptions C03_code_wrapper_write_tie_pending.
 
+(* ---- tie to the code (security/tofu.py and the TOFU block of client/session.py): theorems of coq/Equiv/EquivTofu.v (statements there), re-checked against the definitions
+   regenerated from /repo's working tree; see DESIGN.md 11.8 ---- *)
+From NV Require Equiv.EquivTofu.
+Theorem C03_code_trust_tie : ltac:(let t := type of @EquivTofu.trust_tie in exact t).
+Proof. exact (@EquivTofu.trust_tie). Qed.
+Print Assumptions C03_code_trust_tie.
+
+Theorem C03_code_verify_tie : ltac:(let t := type of @EquivTofu.verify_tie in exact t).
+Proof. exact (@EquivTofu.verify_tie). Qed.
+Print Assumptions C03_code_verify_tie.
+
+Theorem C03_code_revoke_tie : ltac:(let t := type of @EquivTofu.revoke_tie in exact t).
+Proof. exact (@EquivTofu.revoke_tie). Qed.
+Print Assumptions C03_code_revoke_tie.
+
+Theorem C03_code_clear_tie : ltac:(let t := type of @EquivTofu.clear_tie in exact t).
+Proof. exact (@EquivTofu.clear_tie). Qed.
+Print Assumptions C03_code_clear_tie.
+
+Theorem C03_code_import_toml_code_tie : ltac:(let t := type of @EquivTofu.import_toml_code_tie in exact t).
+Proof. exact (@EquivTofu.import_toml_code_tie). Qed.
+Print Assumptions C03_code_import_toml_code_tie.
+
+Theorem C03_code_get_single_tofu_tie : ltac:(let t := type of @EquivTofu.get_single_tofu_tie in exact t).
+Proof. exact (@EquivTofu.get_single_tofu_tie). Qed.
+Print Assumptions C03_code_get_single_tofu_tie.
+
+Theorem C03_code_upload_tofu_tie : ltac:(let t := type of @EquivTofu.upload_tofu_tie in exact t).
+Proof. exact (@EquivTofu.upload_tofu_tie). Qed.
+Print Assumptions C03_code_upload_tofu_tie.
+
